@@ -345,7 +345,8 @@ def docspecs(draw, prof=None):
     d["cell"] = draw(st.one_of(st.sampled_from([(32, 15), (40, 23), (1, 1), (52, 19)]), st.tuples(st.integers(1, 99), st.integers(1, 99))))
     d["px"] = draw(st.one_of(st.sampled_from([(1920, 1080), (640, 480), (1, 1)]), st.tuples(st.integers(1, 4000), st.integers(1, 3000))))
     if draw(st.integers(0, 3)) == 0:
-      d["active_area"] = draw(st.sampled_from([(0.0, 0.0, 1.0, 1.0), (0.1, 0.125, 0.8, 0.75), (0, 0, 0.5, 0.5)]))
+      d["active_area"] = draw(st.sampled_from([(0.0, 0.0, 1.0, 1.0), (0.1, 0.125, 0.8, 0.75), (0, 0, 0.5, 0.5), (0.9, 0.7, 0.1, 0.3),
+                                                (0.3, 0.6, 0.7, 0.4)]))
     if draw(st.integers(0, 3)) == 0:
       d["dar"] = draw(st.sampled_from([F(16, 9), F(4, 3), F(1)]))
     ni = min(draw(st.sampled_from(prof["initial_counts"])), len(ctx.props))
